@@ -105,6 +105,9 @@ def rules(rep, idx, fixture):
     if not fixture:
         from . import glue as _glue
         _glue.param_refusals(rep, "C19.12", idx)
+        # a bus accepts exactly the maps of its own geometry: a legal component can always publish its map
+        from .c01 import setters
+        setters(rep, idx, rule="C19.12")
 
 
 # ---- C19.9 no object shared between calls / instances by accident ------------------------------------------
